@@ -443,6 +443,84 @@ def r6_iso(chk, F, R):
     chk.info("the default Display omits the fraction when ns == 0 whereas ISO8601 (non-optional %f) always prints it")
 
 
+def r7_parse_agreement(chk, F, R):
+    """The format-driven reader interpreted on what the formatter renders (template-string domain of C10): for UTC epochs and
+    the formats with the full date and time and no optional token, Format::parse(format, render(format, e)) must reach
+    maybe_from_gregorian once with argument k = the value of the digit run the formatter printed for field k."""
+    from .c10 import Reader, build_from_shape, check_gregorian_paths
+    from ..sym import Ref as _Ref, St as _St
+    from ..fmtmodel import FormatBuilder
+    from ..tstr import render as trender
+    rule = "C19.R7"
+    RD = Reader(F)
+    B2 = FormatBuilder(F, RD.eng)
+    parse = F.find1(self_ty="Format", name="parse", trait="")
+    jobs = [("ISO8601", None), ("ISO8601_STD", None), ("RFC3339", None)]
+    extra_formats = ["%Y-%m-%d %H:%M:%S", "%d/%m/%Y %H:%M:%S.%f", "%H:%M:%S %Y-%m-%d"]
+    n = 0
+    for name, _ in jobs + [(f, "str") for f in extra_formats]:
+        if _ is None:
+            items, cnt = R.B.decode_const(F.const("efmt::consts::" + name)["v"])
+            items = items[:cnt]
+        else:
+            items = parse_format_oracle(name, LETTERS)  # Format::from_str == this oracle: R3/R2
+        # what the formatter renders for this format (symbolic epoch)
+        finals, args = R.explore(items)
+        shapes = set()
+        for st in finals:
+            if st.end != "return":
+                continue
+            got = R.render(st, args)
+            shape = []
+            for g in got:
+                if g[0] == "lit":
+                    shape.append(("lit", g[1]))
+                elif g[0] == "field" and g[1].startswith("cg.") and g[2] == "display" and g[3] and g[4]:
+                    shape.append(("field", int(g[1][3:]), g[3]))
+                elif g[0] == "field" and g[1] == "time_scale":
+                    shape.append(("scale",))
+                elif g[0] == "field" and g[1].startswith("offset."):
+                    shape.append(("offset-field", g[1], g[3]))
+                else:
+                    shape.append(("?", repr(g)[:60]))
+            shapes.add(tuple(shape))
+        for shape in sorted(shapes):
+            shapes_cur = shape
+            shape = list(shape)
+            # %z of a UTC epoch: the offset decomposition is that of a zero duration -> "+00:00"
+            if any(x[0] == "offset-field" for x in shape):
+                out = []
+                for x in shape:
+                    if x[0] == "offset-field":
+                        out.append(("lit", "0" * (x[2] or 2)))
+                    else:
+                        out.append(x)
+                shape = out
+                if any(x[0] == "offset-field" and x[1] == "offset.4" for x in list(shapes_cur)):
+                    continue  # offset seconds are printed only when non-zero: not the rendering of a UTC epoch
+                if ("lit", "-") in shape and ("lit", "+") not in shape:
+                    continue  # the negative-offset rendering path is not that of a UTC epoch
+            if any(x[0] == "?" for x in shape):
+                chk.info("C19.R7: format %s renders a field outside the numeric template domain; not run through the reader" % name)
+                continue
+            fmt_val = B2.format(items)
+            RD.install()
+            eng = RD.eng
+            eng.reset()
+            RD.T.n = 0
+            st0 = _St()
+            tmpl = build_from_shape(shape, "UTC")(RD.T, st0)
+            key = ("cell", "fmt-arg")
+            st0.store[key] = fmt_val
+            eng._pending_cells = []
+            finals2 = eng.run(parse, args=[_Ref(key=key), _Ref(val=tmpl)], st=st0)
+            RD.uninstall()
+            n += 1
+            check_gregorian_paths(chk, rule, "Format::parse[%s]" % name, "parse(render(e))->fields-in-role-order,UTC: %s" % trender(tmpl.els), RD, finals2, RD.T, "UTC",
+                                  sample=(n == 1))
+    chk.floor(rule, "format/parse templates", n, 3)
+
+
 def run(chk, F, tier):
     from .. import fmtdecode
     try:
@@ -457,5 +535,6 @@ def run(chk, F, tier):
     r3_constants(chk, F, R)
     r4_invariant(chk, F)
     r6_iso(chk, F, R)
+    r7_parse_agreement(chk, F, R)
     chk.extra["engine_stats"] = dict(R.eng.stats)
     chk.assumptions.append("field sources (compute_gregorian, day_of_year, weekday, month_name, decompose) are uninterpreted here: C09/C16/C11/C20 judge them")
